@@ -12,10 +12,11 @@ VARIABLES sentC,   \* client data packets sent so far: <<[id, cls], ...>>
           prod,    \* chunk ids the host produced
           inRelay, \* chunks read from the host, not yet written to the client
           toC,     \* chunk ids delivered to the client (inside well-formed DATA packets)
-          ended
-vars == <<sentC, toB, prod, inRelay, toC, ended>>
+          ended,
+          closed   \* the client ended the channel in an orderly way (CLOSE_CHANNEL): <<>> or <<number of packets sent before>>
+vars == <<sentC, toB, prod, inRelay, toC, ended, closed>>
 
-Init == sentC = <<>> /\ toB = <<>> /\ prod = <<>> /\ inRelay = <<>> /\ toC = <<>> /\ ended = FALSE
+Init == sentC = <<>> /\ toB = <<>> /\ prod = <<>> /\ inRelay = <<>> /\ toC = <<>> /\ ended = FALSE /\ closed = <<>>
 
 \* client -> host: forward exactly the declared payload when it is all there; if the
 \* packet carries less than it declares only bytes that were really carried may be
@@ -27,19 +28,26 @@ ClientData(cls) ==
        /\ \/ cls \in {"eq", "long"} /\ toB' = Append(toB, [id |-> id, part |-> "declared"]) /\ UNCHANGED ended
           \/ cls = "short" /\ toB' = Append(toB, [id |-> id, part |-> "carriedprefix"]) /\ UNCHANGED ended
           \/ cls = "short" /\ toB' = toB /\ ended' = TRUE
-  /\ UNCHANGED <<prod, inRelay, toC>>
-HostData == /\ Len(prod) < NB /\ prod' = Append(prod, Len(prod) + 1) /\ UNCHANGED <<sentC, toB, inRelay, toC, ended>>
+  /\ UNCHANGED <<prod, inRelay, toC, closed>>
+\* CLOSE_CHANNEL: the packet loop returns and the host connection is closed.  The loop has written every earlier
+\* payload to the host connection itself before it came to this packet (there is no stage in between that could still
+\* hold bytes), so an orderly close loses nothing
+ClientClose == /\ ~ended /\ ended' = TRUE /\ closed' = <<Len(sentC)>>
+               /\ UNCHANGED <<sentC, toB, prod, inRelay, toC>>
+HostData == /\ Len(prod) < NB /\ prod' = Append(prod, Len(prod) + 1) /\ UNCHANGED <<sentC, toB, inRelay, toC, ended, closed>>
 RelayRead == /\ Len(inRelay) + Len(toC) < Len(prod)
              /\ inRelay' = Append(inRelay, prod[Len(inRelay) + Len(toC) + 1])
-             /\ UNCHANGED <<sentC, toB, prod, toC, ended>>
+             /\ UNCHANGED <<sentC, toB, prod, toC, ended, closed>>
 RelayWrite == /\ inRelay # <<>> /\ toC' = Append(toC, Head(inRelay)) /\ inRelay' = Tail(inRelay)
-              /\ UNCHANGED <<sentC, toB, prod, ended>>
-Next == (\E c \in Lens : ClientData(c)) \/ HostData \/ RelayRead \/ RelayWrite
+              /\ UNCHANGED <<sentC, toB, prod, ended, closed>>
+Next == (\E c \in Lens : ClientData(c)) \/ ClientClose \/ HostData \/ RelayRead \/ RelayWrite
 Spec == Init /\ [][Next]_vars /\ WF_vars(RelayRead) /\ WF_vars(RelayWrite)
 
 ToHostExact == \A i \in 1..Len(toB) : /\ toB[i].id = (IF i = 1 THEN toB[1].id ELSE toB[i].id) /\ (i > 1 => toB[i].id > toB[i - 1].id)
 ToHostNoInvention == \A i \in 1..Len(toB) : sentC[toB[i].id].cls = "short" => toB[i].part = "carriedprefix"
 ToHostComplete == ~ended => (Len(toB) = Len(sentC) /\ \A i \in 1..Len(toB) : toB[i].id = i)
+\* everything sent before an orderly close has reached the host when the channel has ended
+DeliveredBeforeClose == closed # <<>> => \A i \in 1..closed[1] : sentC[i].cls \in {"eq", "long"} => \E j \in 1..Len(toB) : toB[j].id = i /\ toB[j].part = "declared"
 ToClientPrefix == toC = SubSeq(prod, 1, Len(toC))
 ToClientEventuallyAll == <>[](Len(prod) = NB => toC = prod)
 =============================================================================
